@@ -187,19 +187,6 @@ def parseOp (s : String) : Option WOp :=
 /-- TranscodeToLocalCodePage on ASCII: one byte per unit -/
 def trAscii (s : List Nat) : Bytes := s
 
-/-- UTF-8 of a run of UTF-16 units (complete pairs; a lone surrogate is encoded like a BMP unit — the generator never
-sends one to a synchronisation point) -/
-def trUtf8 : List Nat → Bytes
-  | [] => []
-  | [u] => if u < 0x80 then [u] else if u < 0x800 then [0xC0 + u / 64, 0x80 + u % 64]
-           else [0xE0 + u / 4096, 0x80 + u / 64 % 64, 0x80 + u % 64]
-  | h :: l :: r =>
-    if isLead h && isTrail l then
-      let c := 0x10000 + (h - 0xD800) * 1024 + (l - 0xDC00)
-      [0xF0 + c / 262144, 0x80 + c / 4096 % 64, 0x80 + c / 64 % 64, 0x80 + c % 64] ++ trUtf8 r
-    else (if h < 0x80 then [h] else if h < 0x800 then [0xC0 + h / 64, 0x80 + h % 64]
-          else [0xE0 + h / 4096, 0x80 + h / 64 % 64, 0x80 + h % 64]) ++ trUtf8 (l :: r)
-
 def showLog (l : List Out) : String :=
   String.join (l.map fun | .chunk b => "k:" ++ hexOfBytes b ++ " " | .flushed => "F ")
 
